@@ -65,11 +65,17 @@ func c08MakeSchema(r *gen.R, i int) (string, *ir.Request) {
 		q, _ := gen.SplitPathQuery(gen.GenMultiServiceFile(rr, i, gen.RuntimeOpts{Headers: true}))
 		return "multi_split", q
 	case 0:
-		q, _ := gen.SplitPathQuery(gen.GenRuntimeFile(rr, i, gen.RuntimeOpts{ManyMethods: true}))
-		return "runtime_split", q
+		if i%8 == 0 {
+			q, _ := gen.SplitPathQuery(gen.GenRuntimeFile(rr, i, gen.RuntimeOpts{ManyMethods: true}))
+			return "runtime_split", q
+		}
+		return "runtime_original", gen.GenRuntimeFile(rr, i, gen.RuntimeOpts{ManyMethods: true})
 	default:
-		q, _ := gen.SplitPathQuery(gen.GenMultiServiceFile(rr, i, gen.RuntimeOpts{Headers: i%8 == 1, ManyMethods: true}))
-		return "multi_split_many", q
+		if i%8 == 1 {
+			q, _ := gen.SplitPathQuery(gen.GenMultiServiceFile(rr, i, gen.RuntimeOpts{Headers: true, ManyMethods: true}))
+			return "multi_split_many", q
+		}
+		return "multi_original_many", gen.GenMultiServiceFile(rr, i, gen.RuntimeOpts{Headers: i%8 == 5, ManyMethods: true})
 	}
 }
 
